@@ -77,7 +77,7 @@ def run(ctx):
     sp_lines = []
     hist = list(itertools.product(alpha, repeat=D))
     if quick:
-        hist = hist[ctx.seed % 2:: 2]      # half of the 13^4 histories per run in the quick tier, all in thorough
+        hist = rng.sample(hist, len(hist) // 2)      # a seeded random half of the 13^4 histories in the quick tier, all in thorough
     for n, h in enumerate(hist):
         body = " ".join("%d %d" % (SPLAY_CODE[o], k) for o, k in h)
         sp_lines.append("%d %d %s" % (n % 4, D, body))
